@@ -41,14 +41,18 @@ def execute(fname, entry, n, maxs, state40, first_round, shares_rnd, preserve, j
             for k in range(8):
                 s0[k] ^= sj[k]
         raw[i * maxs * 8:i * maxs * 8 + 8] = s0
-    m.add_region(m.STATE_ADDR, bytes(raw), "masked state")
-    m.add_region(m.OPER2_ADDR, preserve[:8 * (n - 1)], "preserve")
-    m.setup(m.STATE_ADDR, first_round, m.OPER2_ADDR, junk)
+    # AVR objects have alignment 1: both operands start at case-dependent addresses, the preserve words in half of the cases
+    # so that they straddle a 256-byte page (pointer arithmetic on one half of X / Y / Z shows there)
+    sa = m.STATE_ADDR + (junk[0] & 0x1FF)
+    pa = m.OPER2_ADDR + ((junk[1] >> 8) & 0xF) * 0x100 + ((0x100 - 1 - (junk[1] & 0xF)) if junk[1] & 0x10 else (junk[1] & 0xFF))
+    m.add_region(sa, bytes(raw), "masked state")
+    m.add_region(pa, preserve[:8 * (n - 1)], "preserve")
+    m.setup(sa, first_round, pa, junk)
     try:
         m.run(entry, max_steps=2000000)
     except emu.EmuError as e:
         return None, ["interpreter stopped: %s" % e]
-    out = m.read_region(m.STATE_ADDR, 5 * maxs * 8)
+    out = m.read_region(sa, 5 * maxs * 8)
     val = bytearray(40)
     for i in range(5):
         for k in range(8):
